@@ -198,24 +198,26 @@ def _coq_eval_once(imports, exprs, timeout=600, shard=None, tag="x"):
             f.write(imports + "\nSet Printing Width 10000000.\nSet Printing Depth 10000000.\nOpen Scope string_scope.\n")
             for i, e in ch:
                 f.write(f'Eval vm_compute in ("#{i}#" ++ ({e}))%string.\n')
+        outf = open(path[:-2] + ".out", "w")
         p = subprocess.Popen(["bash", "-c", f"ulimit -s unlimited 2>/dev/null; exec coqc -noglob -Q {COQ} Verif -w -all {path}"],
-                             stdout=subprocess.PIPE, stderr=subprocess.STDOUT, text=True, cwd=COQ)
+                             stdout=outf, stderr=subprocess.STDOUT, text=True, cwd=COQ)
         procs.append((p, path))
     results = [None] * len(exprs)
     errors = []
     deadline = time.time() + timeout
     for p, path in procs:
         try:
-            out, _ = p.communicate(timeout=max(1, deadline - time.time()))
+            p.wait(timeout=max(1, deadline - time.time()))
         except subprocess.TimeoutExpired:
             p.kill()
-            out, _ = p.communicate()
+            p.wait()
             errors.append(f"timeout in {path}")
+        out = open(path[:-2] + ".out", errors="replace").read()
         for m in re.finditer(r'^\s*= "#(\d+)#((?:[^"]|"")*)"\s*$', out, flags=re.M):
             results[int(m.group(1))] = m.group(2).replace('""', '"')
         if p.returncode not in (0, None) or "Error" in out:
             errors.append(out[-2000:])
-        for ext in (".v", ".vo", ".vok", ".vos", ".glob"):
+        for ext in (".v", ".vo", ".vok", ".vos", ".glob", ".out"):
             q = path[:-2] + ext
             if os.path.exists(q):
                 os.remove(q)
